@@ -5,6 +5,7 @@ from __future__ import annotations
 import csv
 import json
 import os
+import shutil
 import sys
 import tempfile
 import threading
@@ -28,14 +29,14 @@ RULE = (
     "histories of 2..4 sessions with overlapping subject sets and sibling aggregators on two files of one directory (one.tsv/two.tsv, results.model_a.tsv/results.model_b.tsv, run.tsv/run_2.tsv, a.b.tsv/a.tsv, res_panoptica_aggregator_tmp.tsv/res.tsv) or the same file name in two directories, two sessions inside one interpreter with the first object garbage-collected "
     "(interleaved in one process; in two processes where one exits first). Non-trivial = every crash point / history; "
     "distinct = (initial state, variant, k) resp. hash of the history."
-    ' Further: subject names that are prefixes, suffixes or substrings of one another, sessions on a relative output path, restart under another PYTHONHASHSEED.'
+    ' Further: subject names that are prefixes, suffixes or substrings of one another, sessions on a relative output path, restart under another PYTHONHASHSEED, continuation (two threads, then a restart) of a file that an earlier run left with 5000-20000 complete rows, with new names that are suffixes / prefixes / substrings of recorded ones.'
 )
 ASSUMPTIONS = [
     "process death is modelled by os._exit(137) between two traced operations: user-space buffers are lost, no exit handlers run",
     "mid-write death (torn row) is outside the statement and not injected",
     "a new process has fresh, unlocked module-level locks (re-created in the forked child)",
 ]
-MINIMUM = {"C17.crash_points_judged": 100, "C17.sibling_scenarios_judged": 8, "C17.session_histories_judged": 10}
+MINIMUM = {"C17.big_file_sessions_judged": 1, "C17.crash_points_judged": 100, "C17.sibling_scenarios_judged": 8, "C17.session_histories_judged": 10}
 BUDGET_S = {"quick": 1200, "thorough": 900}
 SHARDS = {"quick": 16, "thorough": 900}
 EXHAUSTIVE = {"quick": True, "thorough": True}
@@ -58,6 +59,8 @@ def cases(tier, seed):
         yield {"fam": "siblings", "i": i}
     for i in range(4 if tier == "quick" else 32):
         yield {"fam": "hashseed", "i": i}
+    for i in range(2 if tier == "quick" else 16):
+        yield {"fam": "big_file", "i": i}
 
 
 def setup(ctx):
@@ -499,8 +502,90 @@ def hashseed_sessions(ctx, i):
             ctx.viol("recovery_raised", dict(det, error=chk.stderr[-600:]), features=dict(feats, kind="loader"))
 
 
+def big_file_sessions(ctx, i):
+    """a file left by a long earlier run (thousands of complete rows; its list of recorded names alone is beyond 64 KiB) is
+    continued: first by a session with two threads, then by a restart that submits everything again.  Some new names are
+    suffixes, prefixes or substrings of recorded ones.  Every new subject gets exactly one row, old rows stay as they are."""
+    header, exp = expected(ctx)
+    r = gen.rng(ctx.seed, "c17big", i)
+    n_old = [6000, 9000, 20000, 5000][i % 4] + int(r.integers(0, 50))
+    d = tempfile.mkdtemp(prefix="c17b_", dir=os.environ.get("VERIF_TMP"))
+    path = os.path.join(d, "cohort.tsv")
+    err = os.path.join(d, "err.txt")
+    new = [str(x) for x in r.permutation(NAMES)[: int(r.integers(4, 9))]]
+    old = [f"patient_{j:06d}" for j in range(n_old)]
+    # recorded names that end with, start with or contain a name submitted later
+    for k, n in enumerate(new):
+        old[int(r.integers(0, n_old))] = ["pre_" + n, n + "_post", "a " + n + " b", "x" + n][k % 4] if n != "subject_name" else "the subject_name"
+    old = list(dict.fromkeys(o for o in old if o not in NAMES))
+    with open(path, "w", encoding="utf8", newline="") as fh:
+        w = csv.writer(fh, delimiter="\t", lineterminator="\n")
+        w.writerow(header)
+        for j, o in enumerate(old):
+            w.writerow([o] + exp[NAMES[j % 6]][1:])
+    det = {"family": "big_file", "n_recorded_before": len(old), "new": new}
+    feats = {"family": "big_file"}
+    first = new[: max(2, len(new) // 2)]
+    rc = in_child(lambda: session(path, first, threads=bool(i % 2 == 0)), err, timeout=600)
+    if rc is None:
+        ctx.count("C17.inconclusive_watchdog")
+        shutil.rmtree(d, ignore_errors=True)
+        return
+    if rc != 0:
+        ctx.viol("session_raised", dict(det, session=1, tb=open(err).read()[-600:] if os.path.exists(err) else str(rc)), features=dict(feats, kind="session_raised"))
+        shutil.rmtree(d, ignore_errors=True)
+        return
+    rc = in_child(lambda: session(path, new + first[:1], threads=bool(i % 2)), err, timeout=600)
+    if rc is None:
+        ctx.count("C17.inconclusive_watchdog")
+        shutil.rmtree(d, ignore_errors=True)
+        return
+    if rc != 0:
+        ctx.viol("session_raised", dict(det, session=2, tb=open(err).read()[-600:] if os.path.exists(err) else str(rc)), features=dict(feats, kind="session_raised"))
+        shutil.rmtree(d, ignore_errors=True)
+        return
+    ctx.count("evaluations")
+    rows = read_rows(path)
+    ok = True
+    if not rows or rows[0] != header:
+        ctx.viol("header_missing_or_not_first", dict(det, first_row=rows[0] if rows else None), features=dict(feats, kind="header_missing_or_not_first"))
+        ok = False
+    elif [x[0] for x in rows[1 : 1 + len(old)]] != old or any(x[1:] != exp[NAMES[j % 6]][1:] for j, x in enumerate(rows[1 : 1 + len(old)])):
+        ctx.viol("earlier_rows_changed", dict(det, n_rows=len(rows)), features=dict(feats, kind="earlier_rows_changed"))
+        ok = False
+    else:
+        tail = rows[1 + len(old) :]
+        names = [x[0] if x else None for x in tail]
+        for n in new:
+            if names.count(n) == 0:
+                ctx.viol("subject_missing_after_recovery", dict(det, subject=n, new_rows=names), features=dict(feats, kind="subject_missing_after_recovery"))
+                ok = False
+                break
+            if names.count(n) > 1:
+                ctx.viol("subject_duplicated_after_recovery", dict(det, subject=n, new_rows=names), features=dict(feats, kind="subject_duplicated_after_recovery"))
+                ok = False
+                break
+        if ok:
+            for x in tail:
+                if x[0] not in new:
+                    ctx.viol("unexpected_row", dict(det, row=x), features=dict(feats, kind="unexpected_row"))
+                    ok = False
+                    break
+                if x != exp[x[0]]:
+                    ctx.viol("row_differs_from_uninterrupted_run", dict(det, row=x, expected=exp[x[0]]), features=dict(feats, kind="row_differs_from_uninterrupted_run"))
+                    ok = False
+                    break
+    ctx.count("C17.big_file_sessions_judged")
+    ctx.count("C17.rows_recorded_before_big_file_sessions", len(old))
+    if ok:
+        ctx.nontrivial("big_file", len(old), json.dumps(new))
+    shutil.rmtree(d, ignore_errors=True)
+
+
 def run(case, ctx):
     fam = case["fam"]
+    if fam == "big_file":
+        return big_file_sessions(ctx, case["i"])
     if fam == "hashseed":
         return hashseed_sessions(ctx, case["i"])
     if fam == "crash":
